@@ -261,40 +261,8 @@ impl Property for C09 {
             st.eval(1);
             let md = pat.is_match(d);
             if !md {
-                // F-EXH-OPTIONAL: exhaustiveness is computed as if every repetition were taken at
-                // least once.  Predicted: the matched path needs a skipped repetition, i.e. the
-                // same pattern with every zero lower bound raised to one does not match it.
-                if crate::findings::is_open("F-EXH-OPTIONAL", "C09")
-                    && case.exprs.iter().any(has_optional_rep)
-                {
-                    let raised: Vec<Expr> = case.exprs.iter().map(raise_optional).collect();
-                    if let Ok(Some((_, p2))) = build_pat(&raised) {
-                        if !p2.is_match(p) {
-                            st.known("F-EXH-OPTIONAL", || format!("{} matches {:?} but not {:?}", text, p, d));
-                            continue;
-                        }
-                    }
-                }
-                // F-EXH-BRANCH: a branch in the scanned tail whose own tail is bounded text
-                // (`<{a,b}/>`, `<<?a>/>*`) contributes a zero term and is then treated as if it
-                // were open.  Predicted: the descendant matches once those branches are widened
-                // to `*`.
-                if crate::findings::is_open("F-EXH-BRANCH", "C09") {
-                    let widened: Vec<Expr> = case.exprs.iter().map(|e| widen_tail(&strip_flags(e))).collect();
-                    let changed = widened.iter().zip(case.exprs.iter()).any(|(w, e)| *w != strip_flags(e));
-                    if changed && widened.iter().any(|w| crate::refmatch::lenient_match_with(w, d, Default::default())) {
-                        st.known("F-EXH-BRANCH", || format!("{} matches {:?} but not {:?}", text, p, d));
-                        continue;
-                    }
-                }
-                // F-EXH-TRAILSEP: the pattern ends in a repetition whose unfoldings end in a
-                // separator; wax reasons about `x/`-terminated text, so the descendant *with a
-                // trailing separator* does match
-                if crate::findings::is_open("F-EXH-TRAILSEP", "C09")
-                    && case.exprs.iter().any(trailsep_trigger)
-                    && pat.is_match(&format!("{}/", d))
-                {
-                    st.known("F-EXH-TRAILSEP", || format!("{} matches {:?} but not {:?}", text, p, d));
+                if let Some(f) = classify_exh(&case.exprs, &pat, p, d, "C09") {
+                    st.known(f, || format!("{} matches {:?} but not {:?}", text, p, d));
                     continue;
                 }
                 return Err(format!(
@@ -306,6 +274,42 @@ impl Property for C09 {
         }
         Ok(())
     }
+}
+
+
+/// Which open exhaustiveness finding (if any) explains exactly that the pattern matches the
+/// canonical path `p` but not its canonical descendant `d`?
+pub fn classify_exh(exprs: &[Expr], pat: &Pat, p: &str, d: &str, property: &str) -> Option<&'static str> {
+    // F-EXH-OPTIONAL: exhaustiveness is computed as if every repetition were taken at least once.
+    // Predicted: the matched path needs a skipped repetition, i.e. the same pattern with every
+    // zero lower bound raised to one does not match it.
+    if crate::findings::is_open("F-EXH-OPTIONAL", property) && exprs.iter().any(has_optional_rep) {
+        let raised: Vec<Expr> = exprs.iter().map(raise_optional).collect();
+        if let Ok(Some((_, p2))) = build_pat(&raised) {
+            if !p2.is_match(p) {
+                return Some("F-EXH-OPTIONAL");
+            }
+        }
+    }
+    // F-EXH-BRANCH: a branch in the scanned tail whose own tail is bounded text (`<{a,b}/>`,
+    // `<<?a>/>*`) contributes a zero term and is then treated as if it were open.  Predicted: the
+    // descendant matches once those branches are widened to `*`.
+    if crate::findings::is_open("F-EXH-BRANCH", property) {
+        let widened: Vec<Expr> = exprs.iter().map(|e| widen_tail(&strip_flags(e))).collect();
+        let changed = widened.iter().zip(exprs.iter()).any(|(w, e)| *w != strip_flags(e));
+        if changed && widened.iter().any(|w| crate::refmatch::lenient_match_with(w, d, Default::default())) {
+            return Some("F-EXH-BRANCH");
+        }
+    }
+    // F-EXH-TRAILSEP: the pattern ends in a repetition whose unfoldings end in a separator; wax
+    // reasons about `x/`-terminated text, so the descendant *with a trailing separator* matches
+    if crate::findings::is_open("F-EXH-TRAILSEP", property)
+        && exprs.iter().any(trailsep_trigger)
+        && pat.is_match(&format!("{}/", d))
+    {
+        return Some("F-EXH-TRAILSEP");
+    }
+    None
 }
 
 /// F-EXH-TRAILSEP trigger: the last top-level token is a repetition every unfolding of which
